@@ -403,6 +403,26 @@ func runC02Sequential(c *core.Ctx) {
 		x := runSearch(c, sp)
 		c.AddCounter("sequential_states", x.States)
 	}
+	// SQL store (sqlite), sessions identified by sub and location IDs as well, counters reloaded at every logon
+	if tmpl, err := sqliteTemplateDB(); err != nil {
+		c.EngineError("sqlite: " + err.Error())
+	} else {
+		tp := dir + "/template.db"
+		if err := os.WriteFile(tp, tmpl, 0o644); err != nil {
+			c.EngineError(err.Error())
+		}
+		for _, ini := range []bool{false, true} {
+			cfg := sessmc.Config{Initiator: ini, BeginString: "FIX.4.2", FileDir: dir, SQLTemplate: tp, RefreshOnLogon: true,
+				SenderSub: "SS", SenderLoc: "SL", TargetSub: "TS", TargetLoc: "TL"}
+			sp := variantDefs["C02/seq"](cfg)
+			sp.depth = 4
+			if !c.Quick() {
+				sp.depth = 5
+			}
+			x := runSearch(c, sp)
+			c.AddCounter("sequential_states", x.States)
+		}
+	}
 	depth := 5
 	if !c.Quick() {
 		depth = 6
